@@ -106,13 +106,14 @@ func c09Alphabet(thorough bool) []c09Op {
 		{Kind: "complete", Key: "k1", Val: 4},
 		{Kind: "put-rejected", Key: "k1", Val: 2},
 		{Kind: "complete-rejected", Key: "k1", Val: 2},
+		{Kind: "copy-ver", Key: "d/k2", Src: "k1", Sel: "oldest"},
 	}
 	if thorough {
 		ops = append(ops,
 			c09Op{Kind: "suspend"}, c09Op{Kind: "enable"},
 			c09Op{Kind: "delete-ver", Key: "k1", Sel: "middle"},
 			c09Op{Kind: "delete-ver", Key: "k1", Sel: "marker"},
-			c09Op{Kind: "copy-ver", Key: "d/k2", Src: "k1", Sel: "oldest"},
+			c09Op{Kind: "copy-ver", Key: "d/k2", Src: "k1", Sel: "newest"},
 			c09Op{Kind: "delete", Key: "d/k2"},
 		)
 	}
